@@ -17,7 +17,18 @@ META = {
     },
 }
 
-ENGINE_OF = {"C09": "sched"}
+META["C08"] = {
+    "level": "model_checking",
+    "rule": "breadth-first search over all operation histories (add of each event kind/amount, update-concurrency, clock advances by 1 / bucket-1 / bucket / bucket+1 / interval-1 / interval / interval+1 / >3 intervals, refreshing array reads) up to the depth bound, per array geometry and creation time (near zero, aligned, unaligned); after EVERY transition every getter of EVERY constructible view and of BaseStatNode is compared with the aligned-bucket reference; states are deduplicated on (implementation bucket dump relative to now, reference aggregates, clock phase); a distinct outcome = scenario + vector of values the implementation returned",
+    "assumptions": [A_CLOCK, A_OVERLAY, "single goroutine (concurrency is C09)", "documented conventions mirrored: BaseStatNode.AvgRT integer average, MinRT floor 1 ms / default 60000, AvgRT of an empty window not compared, GetPreviousQPS compared only for views shorter than the array by one view bucket"],
+    "budget_quick": 90,
+    "budget_thorough": 1200,
+    "text": "Explicit-state exploration of the real BucketLeapArray / SlidingWindowMetric / BaseStatNode code against a list-of-events reference: all histories to the depth bound over 5 (quick) / 10 (thorough) geometries x 4 creation times, plus the complete table of view constructibility against 'tiles the buckets exactly'.",
+    "level_note": "Bounded depth (5 quick / 7 thorough) and finite alphabets chosen from the code's boundary constants; unbounded time and histories are not covered.",
+    "technique": "explicit-state BFS over operation sequences on the implementation with reference-model comparison on every transition",
+}
+
+ENGINE_OF = {"C09": "sched", "C08": "seq"}
 
 # properties not claimed, with the reason (kept current)
 NOT_APPLICABLE = {}
